@@ -137,7 +137,9 @@ pub fn check(rep: &mut Report, f: &(&str, &str, bool, &str, usize), ccy: &str, a
         let int_digits = canon_dec(a).split(',').next().unwrap().trim_start_matches('0').len();
         let printed_dec = decimals_of(&out_amt);
         if !plain_decimal(&out_amt) || canon_dec(&out_amt) != canon_dec(a) {
-            let class = if digits > 15 || int_digits + printed_dec > 15 { "f64-precision".to_string() } else if name == "36" { "rate-format".into() } else { format!("decimals={}", sig_dec.min(6)) };
+            // a whole number below 10^15 (< 2^53) is held exactly by an f64 and printed exactly by {:.N}: a change there is not the representation limit
+            let exactly_held = sig_dec == 0 && digits <= 15;
+            let class = if exactly_held { "whole-number".to_string() } else if digits > 15 || int_digits + printed_dec > 15 { "f64-precision".to_string() } else if name == "36" { "rate-format".into() } else { format!("decimals={}", sig_dec.min(6)) };
             rep.fail(&format!("value_changed|Field{name}|{class}"), json!({"field": fname, "currency": ccy, "amount": a, "content_hex": hex(&content), "serialised": ser, "why": "serialising changes the numeric value"}));
         } else if p.reparse_same != Some(true) {
             rep.fail(&format!("unstable_roundtrip|Field{name}|amount"), w("re-parsing the serialised field gives another value"));
@@ -195,6 +197,10 @@ pub fn run(o: &Opts) -> Report {
                 break; // no currency in this field
             }
             for s in spellings {
+                check(&mut rep, f, ccy, s);
+            }
+            // whole amounts around 2^53 minor units (exactly representable; must be printed back exactly)
+            for s in ["999999999999999", "987654321098765", "90071992547410", "90071992547411", "9007199254742", "900719925475", "123456789012345"] {
                 check(&mut rep, f, ccy, s);
             }
             // decimals 0..5 x magnitudes 0..15 (+2 beyond the limit)
